@@ -204,12 +204,20 @@ def oraclesOfJson (j : Json) : Except String Oracles := do
     | some x => (← x.getArr?).toList.mapM fun t => do
       let a ← t.getArr?
       pure ((← a[0]!.getStr?), (← a[1]!.getStr?), (← a[2]!.getBool?))
+  -- a second family of hooks (optional key "hookNeed"): the hook raises unless, for every listed
+  -- group of fields, at least one field of the group holds a value (is set and not None)
+  let needs : List (List String) ← match optField j "hookNeed" with
+    | none => pure []
+    | some x => (← x.getArr?).toList.mapM fun g => do
+      (← g.getArr?).toList.mapM fun n => n.getStr?
   pure { reMatch := fun p s => match over.find? (fun t => t.1 == p && t.2.1 == s) with
             | some t => t.2.2
             | none => fmtMatch (fun p s => match table.find? (fun t => t.1 == p && t.2.1 == s) with
                                 | some t => t.2.2 | none => false) p s,
-         hookOk := fun st => hooks.all fun h => match lookup h.1 st with
-                                | some x => !PyVal.pyEq x h.2 | none => true }
+         hookOk := fun st => (hooks.all fun h => match lookup h.1 st with
+                                | some x => !PyVal.pyEq x h.2 | none => true)
+                             && (needs.all fun g => g.any fun n => match lookup n st with
+                                | some x => !x.isNone | none => false) }
 
 def kwOfJson (j : Json) : Except String (List (String × PyVal)) := do
   (← j.getArr?).toList.mapM fun kv => do
